@@ -4,7 +4,7 @@
    (Required, Read Only, Maximum / Minimum with exclusivity, Multiple Of, Max/Min Length, Pattern, Max/Min Items,
    Unique); enums, formats, types, references and the structure of definitions are decided on the implementation
    (whole-document round trip through `generate model` and codescan.Run, keyword by keyword). *)
-From GS Require Import Base.Str Tools.Decimal Scan.DocVocab Scan.DocVocabLemmas.
+From GS Require Import Base.Str Tools.Decimal Scan.DocVocab Scan.DocVocabLemmas Gen.GenTaggers Scan.Taggers.
 
 (* what the template writes is read back as exactly the same validations *)
 Theorem C18_vocabulary_roundtrip : forall v, wf v = true -> parse (emit v) = v.
@@ -30,3 +30,19 @@ Example C18_refuted_pattern_with_leading_blank :
               d_pattern := Some (s " x"); d_maxitems := None; d_minitems := None; d_unique := false |} in
   d_pattern (parse (emit v)) = Some (s "x").
 Proof. vm_compute. reflexivity. Qed.
+
+(* ---------- the sectioned comment parser hands every tagger its own lines ---------- *)
+(* lines are filed under the NAME of the first tagger that recognises them; with pairwise distinct names the entry of a
+   tagger's name holds exactly the lines that tagger recognised first and is parsed by that tagger's setter *)
+Theorem C18_tagger_entry_is_own : forall ts lines t,
+  distinct (map t_name ts) = true -> well_indexed ts -> In t ts -> filed ts lines (t_name t) = own_lines ts lines t.
+Proof. exact filed_is_own. Qed.
+Print Assumptions C18_tagger_entry_is_own.
+Theorem C18_tagger_entry_owner : forall ts lines t o,
+  distinct (map t_name ts) = true -> In t ts -> entry_owner ts lines (t_name t) = Some o -> o = t.
+Proof. exact entry_owner_is_self. Qed.
+Print Assumptions C18_tagger_entry_owner.
+(* ... and the tagger lists of the current source (regenerated from codescan/*.go on every run) meet the hypothesis *)
+Theorem C18_tagger_names_distinct : forall g, In g tagger_lists -> distinct (snd g) = true.
+Proof. intros g H. exact (proj1 (forallb_forall _ _) tagger_lists_distinct g H). Qed.
+Print Assumptions C18_tagger_names_distinct.
